@@ -62,10 +62,17 @@ func normalizeLimits(limits Limits) Limits {
 	return limits
 }
 
+// SetLimits sets the limits for the loads that follow. Files are checked against
+// the limits when they enter the cache, so the cache is dropped when the limits
+// change: a file that was admitted under the old limits is looked at again.
 func (l *Loader) SetLimits(limits Limits) {
 	l.mu.Lock()
 	defer l.mu.Unlock()
-	l.limits = normalizeLimits(limits)
+	limits = normalizeLimits(limits)
+	if limits != l.limits {
+		l.cache = make(map[string]cachedFile)
+	}
+	l.limits = limits
 }
 
 func (l *Loader) getLimits() Limits {
@@ -256,7 +263,10 @@ func (l *Loader) loadSingleInclude(
 
 		file = parseFile(includePath, string(incContent))
 		l.mu.Lock()
-		l.cache[includePath] = file
+		if l.limits == limits {
+			// not when the limits changed meanwhile: the file was checked against the old ones
+			l.cache[includePath] = file
+		}
 		l.mu.Unlock()
 	}
 
